@@ -177,6 +177,7 @@ class ServerCfg(dict):
     gex         {'style':..., 'moduli':[...]} or None (refuse: close on request)
     ssh1        dict    SSH-1 server: {'cmask','amask','hbits','hn','he','sbits','sn','se','pflags'}
     segment     int     deliver output in chunks of this many bytes
+    ignore_kinds dict   {packet kind: n}: n MSG_IGNORE messages in front of every packet of that kind
     debug_kinds dict    {packet kind: n}: n MSG_DEBUG messages in front of every packet of that kind (kexreply, gexgroup, gexreply, ...)
     debug       int     number of MSG_DEBUG messages put before every reply
     mutate      callable(n, kind, idx, data) -> [items]  transformation of each outgoing message
@@ -229,6 +230,9 @@ class SshServer:
         for _ in range(self.cfg.get('debug', 0) + (self.cfg.get('debug_kinds') or {}).get(kind, 0)):
             dbg = bytes([MSG_DEBUG, 0]) + wire.string(b'debug message') + wire.string(b'')
             self.emit(sock, 'debug', wire.frame(dbg), perturbation=True)
+        # SSH_MSG_IGNORE in front of packets of given kinds (legal, but the probes do not expect it: they give the probe up)
+        for _ in range((self.cfg.get('ignore_kinds') or {}).get(kind, 0)):
+            self.emit(sock, 'ignore', wire.frame(bytes([2]) + wire.string(b'padding')), perturbation=True)
         self.emit(sock, kind, wire.frame(payload))
 
     # -- events ----------------------------------------------------------
